@@ -196,8 +196,13 @@ def _parse_rw(s, line):
 def ws_pattern(pat):
     """Regex matching `pat` modulo whitespace differences."""
     toks = rustsrc.tokenize(pat)
-    parts = [re.escape(t.text) for t in toks]
-    return re.compile(r'\s*'.join(parts))
+    # the identifier VANY is a wildcard (shortest match, may span lines); a replacement may quote it back as VANY
+    parts = ['(.*?)' if t.text == 'VANY' else re.escape(t.text) for t in toks]
+    return re.compile(r'\s*'.join(parts), re.S)
+
+
+def _fill(b, m):
+    return b.replace('VANY', m.group(1)) if m.groups() else b
 
 
 def apply_rewrite(text, a, b, all_occ, what, log, tag):
@@ -211,14 +216,14 @@ def apply_rewrite(text, a, b, all_occ, what, log, tag):
             raise LostAnchor(f'{what}: rewrite[{tag}] occurrence {pick} of {a0!r} not found ({len(ms)} matches)')
         m = ms[pick]
         log.append({'rule': tag, 'in': what, 'from': a, 'to': b, 'count': 1})
-        return text[:m.start()] + b + text[m.end():]
+        return text[:m.start()] + _fill(b, m) + text[m.end():]
     rx = ws_pattern(a)
     ms = list(rx.finditer(text))
     if not ms:
         raise LostAnchor(f'{what}: rewrite[{tag}] pattern not found: {a!r}')
     if len(ms) > 1 and not all_occ:
         raise LostAnchor(f'{what}: rewrite[{tag}] pattern matches {len(ms)} times: {a!r}')
-    out = rx.sub(lambda m: b, text)
+    out = rx.sub(lambda m: _fill(b, m), text)
     log.append({'rule': tag, 'in': what, 'from': a, 'to': b, 'count': len(ms)})
     return out
 
